@@ -71,26 +71,29 @@ func wrapSites(fn *ssa.Function, enc bool) []wrapSite {
 	})
 	for _, site := range sites {
 		call := site.Instr.(*ssa.Call)
+		site := site
 		site.In(func() {
-			ws := wrapSite{call: call}
-			data := call.Common().Args[1]
-			if enc {
-				ws.data = relFields(core.PathOf(data))
-			} else {
-				// data is a BlobInfo unmarshalled from a record field
-				ws.data = blobSource(site.Fn, core.Strip(data))
-			}
-			if aad := aadOperand(call); aad != nil {
-				ap := core.PathOf(aad)
-				ws.aad = relFields(ap)
-				ws.aadOK = len(ap.Fields) > 0
-				if len(ap.Fields) == 0 {
-					ws.aad = core.ValueName(ap.Root)
+			core.EachRow(call, func(_ *ssa.Alloc, _ int) {
+				ws := wrapSite{call: call}
+				data := call.Common().Args[1]
+				if enc {
+					ws.data = relFields(core.PathOf(data))
+				} else {
+					// data is a BlobInfo unmarshalled from a record field
+					ws.data = blobSource(site.Fn, core.Strip(data))
 				}
-			} else {
-				ws.aad = "<none>"
-			}
-			out = append(out, ws)
+				if aad := aadOperand(call); aad != nil {
+					ap := core.PathOf(aad)
+					ws.aad = relFields(ap)
+					ws.aadOK = len(ap.Fields) > 0
+					if len(ap.Fields) == 0 {
+						ws.aad = core.ValueName(ap.Root)
+					}
+				} else {
+					ws.aad = "<none>"
+				}
+				out = append(out, ws)
+			})
 		})
 	}
 	return out
